@@ -159,6 +159,24 @@ int main(int argc, char **argv)
 				if (rc == 1 && !strcmp(op, "decrypt")) { uint8_t pt[512]; size_t ptl = 0; const char *did = idbl ? (char *)idb : (char *)id; size_t didl = idbl ? idbl : idl;
 					int r1 = sm9_decrypt(&key, did, didl, ctb, ctl, pt, &ptl); vt_int("rc", r1); vt_hex("out", pt, r1 == 1 ? ptl : 0); }
 			}
+		} else if (!strcmp(op, "kemloop") || !strcmp(op, "exchloop")) {
+			// many encapsulations / exchanges with a ONE-octet key: about one in 256 of them has to draw a second nonce (an all-zero key is not output), and the
+			// retry must produce a pair the other side still agrees with
+			SM9_ENC_MASTER_KEY m; SM9_ENC_KEY key, keyA; enc_master(&m, ksb); long trials = kv_int(&kv, "trials", 1000), agree = 0, rcbad = 0, first = -1; size_t klen = (size_t)kv_int(&kv, "klen", 1);
+			int kem = !strcmp(op, "kemloop");
+			int xr = kem ? sm9_enc_master_key_extract_key(&m, (char *)id, idl, &key) : sm9_exch_master_key_extract_key((SM9_EXCH_MASTER_KEY *)&m, (char *)idb, idbl, (SM9_EXCH_KEY *)&key);
+			if (!kem && xr == 1) xr = sm9_exch_master_key_extract_key((SM9_EXCH_MASTER_KEY *)&m, (char *)id, idl, (SM9_EXCH_KEY *)&keyA);
+			vt_int("xrc", xr);
+			for (long i = kv_int(&kv, "start", 0); xr == 1 && i < kv_int(&kv, "start", 0) + trials; i++) {
+				ent_seed((uint64_t)(kv_int(&kv, "seed", 1) * 100003 + i)); uint8_t k1[64] = {0}, k2[64] = {0}; int ok = 0;
+				if (kem) { SM9_Z256_POINT C; int r1 = sm9_kem_encrypt(&m, (char *)id, idl, klen, k1, &C); int r2 = r1 == 1 ? sm9_kem_decrypt(&key, (char *)id, idl, &C, klen, k2) : -1; if (r1 != 1 || r2 != 1) rcbad++; else ok = !memcmp(k1, k2, klen); }
+				else { SM9_Z256_POINT RA, RB; sm9_z256_t rA; int r1 = sm9_exch_step_1A((SM9_EXCH_MASTER_KEY *)&m, (char *)idb, idbl, &RA, rA);
+					int r2 = r1 == 1 ? sm9_exch_step_1B((SM9_EXCH_MASTER_KEY *)&m, (char *)id, idl, (char *)idb, idbl, (SM9_EXCH_KEY *)&key, &RA, &RB, k2, klen) : -1;
+					int r3 = r2 == 1 ? sm9_exch_step_2A((SM9_EXCH_MASTER_KEY *)&m, (char *)id, idl, (char *)idb, idbl, (SM9_EXCH_KEY *)&keyA, rA, &RA, &RB, k1, klen) : -1;
+					if (r1 != 1 || r2 != 1 || r3 != 1) rcbad++; else ok = !memcmp(k1, k2, klen); }
+				if (ok) agree++; else if (first < 0) first = i;
+			}
+			vt_int("trials", trials); vt_int("agree", agree); vt_int("rcbad", rcbad); vt_int("first", first);
 		} else if (!strcmp(op, "exchange")) {
 			SM9_EXCH_MASTER_KEY m; SM9_EXCH_KEY kA, kB; enc_master(&m, ksb); size_t klen = (size_t)kv_int(&kv, "klen", 16); uint8_t skA[256] = {0}, skB[256] = {0}, o[65];
 			int xa = sm9_exch_master_key_extract_key(&m, (char *)id, idl, &kA), xb = sm9_exch_master_key_extract_key(&m, (char *)idb, idbl, &kB); vt_int("xa", xa); vt_int("xb", xb);
